@@ -364,3 +364,85 @@ func checkKeyBytewise(p *Program, r *Report) {
 		r.ok("KEY-BYTEWISE", "record codec / strings in the codec are handled byte-wise", fmt.Sprintf("no rune iteration or []rune conversion in the %d functions reachable from %d codec methods (detector control: 2 of 2)", len(reach), len(roots)))
 	}
 }
+
+// ADD-ATOMIC: blockWriter.add either appends the record (true) or leaves the
+// block writer exactly as it was (false).  Writer.add reacts to false by
+// flushing the block - whose index entry is built from the block writer's last
+// key, entry count and length - and retrying in a fresh block, so a field
+// written on a rejecting path makes the index entry describe a record that is
+// not in the block.  Decided on every path of add (helpers inlined): a path
+// returning false performs no store to a field of the receiver.
+func checkAddAtomic(p *Program, r *Report) {
+	var adds []*ssa.Function
+	for _, f := range p.Funcs {
+		recv := f.Signature.Recv()
+		if recv == nil || f.Parent() != nil || f.Signature.Params().Len() != 1 || f.Signature.Results().Len() != 1 {
+			continue
+		}
+		pt, ok := recv.Type().(*types.Pointer)
+		if !ok {
+			continue
+		}
+		n, ok := pt.Elem().(*types.Named)
+		if !ok || n.Obj().Name() != "blockWriter" {
+			continue
+		}
+		if bt, ok := f.Signature.Results().At(0).Type().Underlying().(*types.Basic); !ok || bt.Kind() != types.Bool {
+			continue
+		}
+		if _, ok := f.Signature.Params().At(0).Type().Underlying().(*types.Interface); !ok {
+			continue
+		}
+		adds = append(adds, f)
+	}
+	r.floor("ADD-ATOMIC", len(adds), 1, "block writer methods taking a record and reporting whether it fitted")
+	for _, f := range adds {
+		fk := funcKey(f)
+		w := mk("param", fk+"."+f.Params[0].Name(), f.Params[0].Type())
+		cfg := &simCfg{
+			NoLoopSamples: true,
+			Pure:          map[string]bool{"method:(record).key": true, "method:(record).valType": true, "commonPrefixSize": true},
+			Opaque:        map[string]bool{"method:(record).encode": true, "putVarInt": true},
+			OnStoreHook: func(c *simClient, x *Exec, st *State, fr *Frame, pos token.Pos, addr, val, old *Term) {
+				if addr.Op == "field" && addr.Args[0] == w && val != old {
+					c.g(st).flags["bwmod:"+addr.Aux] = mk("pos", p.pos(pos), nil)
+				}
+			},
+		}
+		c, _ := runSim(p, f, cfg, nil)
+		nFalse, nTrue := 0, 0
+		bad := ""
+		var wit []string
+		for _, s := range c.Samples {
+			if s.Kind != "ret" || s.Panic || len(s.Vals) != 1 {
+				continue
+			}
+			switch s.St.truth(s.Vals[0]) {
+			case 1:
+				nTrue++
+			case 0:
+				nFalse++
+				var mods []string
+				for k, v := range c.g(s.St).flags {
+					if strings.HasPrefix(k, "bwmod:") {
+						mods = append(mods, strings.TrimPrefix(k, "bwmod:")+" at "+v.Aux)
+					}
+				}
+				sort.Strings(mods)
+				if len(mods) > 0 && bad == "" {
+					bad = strings.Join(mods, ", ")
+					wit = witnessOf(p, s.St.trace)
+				}
+			default:
+				bad = "a return value that is neither true nor false on the path"
+			}
+		}
+		key := fk + " / a rejected record leaves the block writer unchanged"
+		if bad != "" {
+			r.violate("ADD-ATOMIC", key, p.pos(f.Pos()), "a path on which the record is rejected (it does not fit) has already written "+bad+": the block is then flushed with an index entry, entry count or length that describes a record the block does not contain", wit)
+		} else {
+			r.ok("ADD-ATOMIC", key, fmt.Sprintf("%d rejecting paths store to no receiver field; %d accepting paths", nFalse, nTrue))
+		}
+		r.floor("ADD-ATOMIC.paths", nFalse, 2, "rejecting paths of "+fk)
+	}
+}
